@@ -13,15 +13,21 @@ HOSTILE_TEXT = [
     'a & b', '1 < 2 > 0', 'say "hi" & \'bye\'', 'tab\there', 'nl\nhere', '  padded  ',
     'café naïve', '\U0001F600 grin', 'é combining', '中文', ']]> cdata end',
     '&amp; literally', '<notatag>', ' nbsp ls', '--', '\\n',
+    # text that LOOKS like a reference after parsing (decoding it a second time changes it),
+    # a backslash path, other Unicode line boundaries
+    '&lt;VT&gt;', 'q=budget&region=wales&section=politics', '&#163;5 &pound;5', 'P_GFX\\W;C_1A', 'next\x85line\u2029para',
 ]
 CR_TEXT = ['a\ue00db', 'line\ue00d\nend', '\ue00d']
 NOTE_TEXT = ['(BONG)', '<VT IN>', '(', ')', '()', '<>', '( x )', '  (padded note)  ', '(half', 'half)',
              '(two\nlines)', '<a\nb>', '(\n)', '\n(note after a line feed)\n', 'plain\n(second line in brackets)',
-             '(mix>', '<mix)', '', ' ', '\n  \n', 'plain (with) brackets', '<a> and <b>', '(a) then (b)']
+             '(mix>', '<mix)', '', ' ', '\n  \n', 'plain (with) brackets', '<a> and <b>', '(a) then (b)',
+             # reference-like text: not a note, and not to be decoded a second time
+             '&lt;VT&gt;', '&amp;', 'q=budget&region=wales&section=politics', '&#40;not a note&#41;', 'AT&T']
 HOSTILE_IDS = ['S1', 'S10', 'S1 ', ' S1', 's1', 'S01', 'A&B', 'x<y', 'q"q', "o'o", '5" x 7\' card',
                'NEWS,AM,S1', 'SPORT,AM,S1', 'OPENMEDIA,7f3a.22,S10', '{6B29FC40-CA47-1067}', 'a{0}b', '%s %d {x}',
                'B"][itemID=\'B\'][itemID="B', 'éè', '\U0001F600',
-               'a,b,c', '0', '-1', 'None', 'ID WITH SPACE', 'storyID', 'item', '..']
+               'a,b,c', '0', '-1', 'None', 'ID WITH SPACE', 'storyID', 'item', '..',
+               'NEWS&amp;SPORT', 'a&lt;b', 'x&#65;', 'P_GFX\\W;C_1A2B3C', 'tab\there', 'News\u2028Late', 'S1\x85A']
 
 
 def rng_for(seed, *parts):
@@ -184,6 +190,20 @@ def rand_timing(rng, mode='any'):
     return t
 
 
+def rand_para(rng, texts, rich=True):
+    """A paragraph: mostly plain text; sometimes inline markup (leading, so that the
+    paragraph has no text of its own, or in the middle) or loose character data after it."""
+    r = rng.random()
+    if not rich or r < 0.8:
+        return E('p', rng.choice(texts))
+    if r < 0.87:
+        return E('p', None, E(rng.choice(['pi', 'em', 'b']), rng.choice(['TURN TO MAP', 'WIDE SHOT', '(VT)']),
+                             tail=rng.choice([' Rain spreading east', None, ' (still a line)'])))
+    if r < 0.92:
+        return E('p', rng.choice(texts), E('em', 'really', tail=rng.choice([' good', ')', None])))
+    return E('p', rng.choice(texts), tail=rng.choice(['*', 'rev 3', '(loose note)', 'loose text after the paragraph']))
+
+
 def rand_item(rng, item_id, pool, rich=True, tag='item'):
     extra = []
     if rng.random() < 0.5:
@@ -214,7 +234,7 @@ def rand_story(rng, story_id, item_idgen, pool, n_items=None, layout=None, timin
     kids = []
     notes = text_pool('notes')
     if layout != 'adj' and rng.random() < 0.6:
-        kids.append(E('p', rng.choice(notes)))
+        kids.append(rand_para(rng, notes, rich))
     for k in range(n):
         if shared_item_ids and rng.random() < 0.5 and k < len(shared_item_ids):
             iid_ = shared_item_ids[k]
@@ -222,7 +242,7 @@ def rand_story(rng, story_id, item_idgen, pool, n_items=None, layout=None, timin
             iid_ = item_idgen()
         kids.append(rand_item(rng, iid_, pool, rich))
         if layout == 'inter' or (layout == 'mixed' and rng.random() < 0.6):
-            kids.append(E('p', rng.choice(notes + pool)))
+            kids.append(rand_para(rng, notes + pool, rich))
         if layout == 'mixed' and rng.random() < 0.3:
             kids.append(rich_blob(rng, 1, pool, rng.choice(['pi', 'break', 'storyItem', 'itemID'])))
     extra = []
@@ -425,7 +445,7 @@ def _rand_message(rng, state, kind, message_id, ids, pool=None, ro_id='RO', timi
             if r < 0.4:
                 body.append(rand_item(rng, ic.new(), pool, rich, tag='storyItem'))
             elif r < 0.75:
-                body.append(E('p', rng.choice(text_pool('notes') + pool)))
+                body.append(rand_para(rng, text_pool('notes') + pool, rich))
             elif r < 0.87:
                 # other elements the schema (or a vendor) puts directly into the body
                 body.append(E(rng.choice(['storyPresenter', 'storyPresenterRR', 'Read1stMEMasBody', 'em', 'tab',
